@@ -797,11 +797,15 @@ package badger
 //@   assert[readonly-guard] before call WriteFile : !readOnly
 
 //@ func (*valueLog).open
-//@   props C07
+//@   props C07 C09
 //@   light
 //@   assert[readonly-guard-delete] before call Delete : !vlog.opt.ReadOnly
 //@   assert[readonly-guard-truncate] before call Truncate : !vlog.opt.ReadOnly
 //@   assert[readonly-guard-create] before call createVlogFile : !vlog.opt.ReadOnly
+//@   assert[newest-file-scanned-from-header] before call iterate : arg0 == vlog.filesMap[vlog.maxFid] && arg2 == vlogHeaderSize
+//@   assert[truncated-at-end-of-valid-records] before call Truncate : arg0 == last && arg1 == int64(ret0(iterate#1)) && ret1(iterate#1) == nil
+//@   assert[only-empty-old-files-deleted] before call Delete : lf.size.v == vlogHeaderSize && fid != vlog.maxFid
+//@   assert[opened-read-only-when-asked] before call open : arg0 == lf && (vlog.opt.ReadOnly ? arg2 == os.O_RDONLY : arg2 == os.O_RDWR)
 //@   assigns inferred
 
 //@ func (*logFile).Truncate
